@@ -68,6 +68,18 @@ CHECKS = {
         "assumptions": ["the reference matcher and the event applier are the trusted oracles", "VerifLCS (hook) calls the unexported lcs routine unchanged"],
         "parts": [sim(200, 3000, qshards=8, tshards=10), unit("C12-pattern", 60000, 600000), unit("C12-lcs", 30000, 300000), {"engine": "unit", "test": "TestExhaustiveLCS", "prop": "C12-lcs-exhaustive", "quick": {"cases": 1, "shards": 1, "timeout": 60}, "thorough": {"cases": 1, "shards": 1, "timeout": 60}}, fuzz("FuzzPattern", 60)],
     },
+    "C14": {
+        "level": "exploration",
+        "rule": "(a) unit: rapid-generated rids, method strings and URL paths over hostile tokens (control bytes, space, CR LF, * > ?, empty tokens, leading/trailing dots, percent-encodings, non-ASCII) for IsValidRID/IsValidRIDPart, rpc.HandleRequest with a recording requester, PathToRID/RIDToPath against reference implementations; (b) simulator: the same hostile grammar as WebSocket methods and HTTP paths (three apiPath prefixes, PUT/DELETE mappings), {cid} rids, queries containing dots and wildcards, and service answers carrying invalid resource ids; oracle: every subject given to Subscribe/SendRequest (other than ones a service supplied verbatim) is clean, equals type.name[.method] for the reference-decoded rid, rejected inputs get system.invalidRequest/404 and cause no service traffic in their step. Non-trivial = input contains a byte outside [A-Za-z0-9.] and reaches the validity decision / a percent-encoded path; distinct by input or script hash",
+        "assumptions": A_SIM + ["inputs the HTTP layer itself rejects (net/http request-line parsing) never reach the gateway and are not judged"],
+        "parts": [sim(250, 4000, qshards=8, tshards=10), unit("C14-rid", 40000, 400000), unit("C14-method", 40000, 400000), unit("C14-path", 40000, 400000), fuzz("FuzzRID", 60)],
+    },
+    "C15": {
+        "level": "exploration",
+        "rule": "(a) unit: every codec decoder, Value.UnmarshalJSON and rpc.HandleRequest on rapid-generated bytes and grammar-generated/cut JSON over the protocol's key set (no panic; an error comes with a nil result; accepted values are proper; accepted resource ids are valid; meta header keys canonical), native fuzzing in thorough; (b) simulator: in generated valid histories, messages from explicit invalidity classes (syntax errors, wrong JSON types, negative/huge/fractional idx, add/remove on model, change on collection, other type on re-fetch, rid+data, rid+action, action+data, unknown action, bare object/array values, invalid/empty rids, null array elements, one bad value among good ones, partly valid query answers) injected as client frame, event, get/access/call/query answer, system or connection event at any step; oracle: the process survives (journal attribution), the injection step yields no event frame and (hook) leaves the cached JSON of every resource unchanged, later valid messages still converge (C01 oracle) and every request is still answered (C07 oracle). Non-trivial = the injected message is syntactically valid JSON; distinct by script/input hash",
+        "assumptions": A_SIM + ["byte-level fuzzing only waits for crashes and decoder contract breaches; semantic containment is checked for the enumerated invalidity classes"],
+        "parts": [sim(300, 5000), unit("C15-decode", 60000, 600000), fuzz("FuzzDecoders", 90)],
+    },
     "C07": {
         "level": "exploration",
         "rule": "rapid stateful generation of request mixes (1-2 connections, subscribe/get/unsubscribe/call/auth/new/ill-formed methods, every outcome and order of the dependent access/get/call answers, events, deletes, revocations), end-of-history epilogue answering everything; oracle: reference client counts responses per id (never two, never unknown, error objects with string code/message) and at quiescence every id on an open connection has exactly one. Non-trivial = >=2 requests for one rid overlapped, or an unsubscribe/unsubscribe event/delete hit a rid with a pending request; distinct by hash of the executed script",
@@ -85,6 +97,10 @@ CHECKS = {
 SIM_NOTE = "trusted: the harness (mock mq, reference client/service, quiescence detector) and rapid; exploration never proves absence; goroutine interleavings inside the gateway are sampled only"
 
 META = {
+    "C15": {"engine": "sim", "design_ref": "6 C15", "technique": "fault-injecting stateful property-based testing (rapid) with journal-based crash attribution, decoder property tests and native fuzzing",
+            "text": "malformed messages from enumerated invalidity classes are injected at every boundary at drawn steps of valid histories; crash, leak, cache change, divergence or stall is a violation.", "note": SIM_NOTE},
+    "C14": {"engine": "sim", "design_ref": "6 C14", "technique": "property-based differential testing (rapid) of the validators and decoders against references, plus stateful generation of hostile requests with a subject-hygiene invariant on the messaging boundary; native fuzzing in thorough",
+            "text": "for-all-inputs claim over three scanners and two path decoders: checked differentially on grammar-generated hostile inputs and end-to-end on every subject the gateway emits.", "note": SIM_NOTE},
     "C12": {"engine": "unit", "design_ref": "6 C12", "technique": "property-based differential testing (rapid) against reference matcher / edit-script applier, exhaustive small-scope enumeration, native fuzzing",
             "text": "pattern matching and the collection diff are for-all-inputs claims: checked differentially on generated inputs, exhaustively on the small scope, and (thorough) by coverage-guided fuzzing.", "note": "trusted: reference matcher, applier, rapid"},
     "C09": {"engine": "sim", "design_ref": "6 C09", "technique": "stateful property-based testing (rapid); trace invariants on the messaging boundary plus end-state and use-count checks",
